@@ -80,7 +80,7 @@ func Gen(seed uint64, profile string) *Scenario {
 		}
 	case "hostile", "mixed":
 		if r.Chance(1, 12) {
-			sc.Allow = []string{simkit.Pick(r, []string{"/w/ext", "/w/ext/dir", "../victim", "../shared"})}
+			sc.Allow = []string{simkit.Pick(r, []string{"/w/ext", "/w/ext/dir", "../victim", "../shared", "../shared", "../shared/", "."})}
 		}
 		sc.SharedPacker = r.Chance(1, 3)
 		n := 1
@@ -328,6 +328,10 @@ func genWellformed(r *simkit.RNG, st *genState) Archive {
 	if r.Chance(1, 20) {
 		ar.Entries = append(ar.Entries, Entry{Name: "", Type: "reg", Mode: 0o644, Body: "EMPTYNAME", Sec: 1000000000})
 	}
+	if len(ar.Entries) >= 2 && r.Chance(1, 8) {
+		// the compressed stream consists of two gzip members; the first ends on an entry boundary
+		ar.SplitMember = r.Range(1, len(ar.Entries)-1)
+	}
 	return ar
 }
 
@@ -383,6 +387,7 @@ var hostileTargets = []string{
 	"../dst-evil", "../dst-evil/keep", "../dstx", "../victim", "../dst/a", "../dst", "./../dst-evil/keep",
 	"../../w/victim", "../../victim", "a/./b", "a//b", "", "/", "//w/victim", "/w/dst/../victim",
 	"/w/ext", "/w/ext/file", "../ext/file",
+	"../shared/keep", "../shared-secrets/keep", "../shared-secrets", "../sharedx",
 }
 
 func hostileName(r *simkit.RNG) string {
@@ -422,7 +427,7 @@ func hostileName(r *simkit.RNG) string {
 	case 15:
 		name = name + "/."
 	case 16:
-		name = "."
+		name = simkit.Pick(r, []string{".", "/", "//", "///", "./", "/."})
 	case 17:
 		name = ".."
 	case 18:
